@@ -1,6 +1,8 @@
 pub mod alloc;
 pub mod ctx;
+pub mod drv;
 pub mod vals;
+pub mod walk;
 pub mod rng;
 pub mod engines;
 
